@@ -81,3 +81,30 @@ def rel(a, b):
     d = frob(np.asarray(a) - np.asarray(b))
     s = max(frob(a), frob(b))
     return d / s if s > 0 else d
+
+
+# ----------------------------------------------------------------------------- affine traces (C01, C02)
+
+
+def affine_traces(p1, dp0, a, b):
+    """Coefficients of the traces of u(x) = a.x + b: vertex values in the continuous P1 space and the values of
+    a.n in the piecewise-constant space, filled through local2global (independent of the DOF numbering)."""
+    grid = p1.grid
+    V = np.asarray(grid.vertices)
+    E = np.asarray(grid.elements).astype(np.int64)
+    g = np.zeros(p1.global_dof_count)
+    l2g = np.asarray(p1.local2global).astype(np.int64)
+    mult = np.asarray(p1.local_multipliers)
+    for e in np.flatnonzero(np.asarray(p1.support)):
+        for l in range(3):
+            if mult[e, l] != 0:
+                g[l2g[e, l]] = a @ V[:, E[l, e]] + b
+    psi = np.zeros(dp0.global_dof_count)
+    l2g0 = np.asarray(dp0.local2global).astype(np.int64)
+    p0, p1v, p2 = V[:, E[0]].T, V[:, E[1]].T, V[:, E[2]].T
+    n = np.cross(p1v - p0, p2 - p0)
+    n = n / np.linalg.norm(n, axis=1)[:, None]
+    nm = np.asarray(dp0.normal_multipliers)
+    for e in np.flatnonzero(np.asarray(dp0.support)):
+        psi[l2g0[e, 0]] = nm[e] * (a @ n[e])
+    return g, psi
